@@ -1,0 +1,47 @@
+//go:build verif
+
+package lisp
+
+import "sync"
+
+// VerifEvent is one record of the verification trace.
+type VerifEvent struct {
+	Ev string `json:"ev"`
+	A  int    `json:"a"`
+	B  int    `json:"b"`
+	X  string `json:"x,omitempty"`
+	Y  string `json:"y,omitempty"`
+	H  int    `json:"h"`
+}
+
+var (
+	verifMu      sync.Mutex
+	verifTracers = map[*CallStack]func(VerifEvent){}
+)
+
+// SetVerifTracer installs (or, with a nil fn, removes) the tracer of a runtime.
+func SetVerifTracer(r *Runtime, fn func(VerifEvent)) {
+	verifMu.Lock()
+	defer verifMu.Unlock()
+	if fn == nil {
+		delete(verifTracers, r.Stack)
+		return
+	}
+	verifTracers[r.Stack] = fn
+}
+
+func verifEv(s *CallStack, ev string, a, b int, x, y string) {
+	verifMu.Lock()
+	fn := verifTracers[s]
+	verifMu.Unlock()
+	if fn != nil {
+		fn(VerifEvent{Ev: ev, A: a, B: b, X: x, Y: y, H: len(s.Frames)})
+	}
+}
+
+func verifBool(b bool) string {
+	if b {
+		return "t"
+	}
+	return "f"
+}
